@@ -10,7 +10,7 @@ Static clauses:
   S-KIND      `fees` enters the template only through Param::apply_fees under the ExpectFees arm (shared with C06)
 Not decided (runtime quantities): fee = a*|payload| + b + margin as a number; that convergence is reached for every setting.
 """
-from .. import mir, e8_state
+from .. import mir, roles, e8_state
 from ..common import CallGraph, call_matches, is_trait_call, with_closures
 from ..engine import Result, ok, finding, assumption, where
 from ..facts import BrokenCheck
@@ -179,7 +179,7 @@ def s_feeflow(F, res):
     else:
         res.add([finding("S-FEEFLOW", key2, where(c), "the reported fee is not eval_size_fees of the payload that is returned")])
     # body fee = template fees
-    b = F.fn("tx3_cardano::compile::compile_tx_body")
+    b = F.fns[roles.builder_of(F, "tx3_cardano", "::TransactionBody")]
     du3 = mir.DefUse(b)
     key3 = b["path"] + "|body fee is the template's fees expression"
     good3 = False
